@@ -891,8 +891,10 @@ package genql
 //@   ensures a-list-of-its-own[C11,C12,C14]: len(result.postProcessors) == 0 && fresh(result.postProcessors)
 //@ func (*Query).exec
 //@   at-call append:copy.postProcessors assert the-deferred-work-of-the-copy-is-adopted-after-its-run[C11,C12,C14]: called(exec)
+//@   at-call Add assert the-calls-the-copy-started-are-awaited[C14]: called(exec)
 //@ func BuildJoin
 //@   at-call append:side.postProcessors assert the-deferred-work-of-both-sides-is-adopted-once-they-are-built[C11,C12,C14]: called(BuildFrom)
+//@   at-call Add assert the-calls-the-sides-started-are-awaited[C14]: called(BuildFrom)
 //@ func (*Query).execAndPostProcess
 //@   loop 0 rereads registered-while-running-are-run-too[C11,C12,C14]: query.postProcessors
 
